@@ -39,3 +39,17 @@ Proof.
   intros Ha Hp Hr H. apply Nat.eqb_eq in H. subst a.
   destruct p as [|[|[|p]]]; try lia; reflexivity.
 Qed.
+
+(** degenerate energies 1, 1, 2: kept elements (inside the blocks {0,1} | {2}) connect equal energies *)
+Definition ex_Ed (p : nat) : Q := match p with O => 1%Q | S O => 1%Q | _ => 2%Q end.
+Lemma ex_Ed_kept_equal p q : (p < 3)%nat -> (q < 3)%nat -> ex_keep p q = true -> ex_Ed p == ex_Ed q.
+Proof.
+  intros Hp Hq. destruct p as [|[|[|p]]]; try lia; destruct q as [|[|[|q]]]; try lia;
+    cbn; intros K; try discriminate; reflexivity.
+Qed.
+Lemma ex_Ed_inv_spec p q : (p < 3)%nat -> (q < 3)%nat -> ex_keep p q = false ->
+  (ex_Ed p - ex_Ed q) * ex_inv (ex_Ed p - ex_Ed q) == 1.
+Proof.
+  intros Hp Hq. destruct p as [|[|[|p]]]; try lia; destruct q as [|[|[|q]]]; try lia;
+    cbn; intros K; try discriminate; reflexivity.
+Qed.
